@@ -254,7 +254,7 @@ func cmdFn(args []string) {
 				top = append(top, kv{o.Name, len(o.Queries)})
 			}
 			sort.Slice(top, func(i, j int) bool { return top[i].q > top[j].q })
-			for i := 0; i < len(top) && i < 12; i++ {
+			for i := 0; i < len(top) && (i < 12 || os.Getenv("GOVC_DRY") == "all"); i++ {
 				fmt.Printf("   %6d  %s\n", top[i].q, top[i].n)
 			}
 		}
